@@ -697,6 +697,49 @@ impl<const N: usize> Subscriptions<N> {
     }
 }
 
+#[cfg(feature = "verif")]
+impl<const N: usize> Subscriptions<N> {
+    /// Read-only snapshot of the subscription table (verification hook)
+    pub fn verif_snapshot(&self) -> crate::verif::SubsSnapshot {
+        fn snap(sub: &Subscription, in_flight: bool) -> crate::verif::SubSnap {
+            crate::verif::SubSnap {
+                id: sub.ids.id,
+                fab_idx: sub.ids.fab_idx.get(),
+                peer_node_id: sub.ids.peer_node_id,
+                min_int_secs: sub.min_int_secs,
+                max_int_secs: sub.max_int_secs,
+                reported_at: if sub.reported_at == Instant::MAX {
+                    u64::MAX
+                } else {
+                    sub.reported_at.as_ticks()
+                },
+                retry_at: sub.retry_at.as_ticks(),
+                fail_count: sub.fail_count,
+                max_seen_attr_change_id: sub.max_seen_attr_change_id,
+                max_seen_event_number: sub.max_seen_event_number,
+                in_flight,
+            }
+        }
+
+        self.state.lock(|state| {
+            let state = state.borrow();
+
+            let mut subs: std::vec::Vec<_> =
+                state.subscriptions.iter().map(|s| snap(s, false)).collect();
+            if let Some(sub) = state.reporting.as_ref() {
+                subs.push(snap(sub, true));
+            }
+
+            crate::verif::SubsSnapshot {
+                count: state.subscriptions_count,
+                subs,
+                change_watermark: state.changed_attrs.watermark(),
+                pending_changes: state.changed_attrs.entries.len(),
+            }
+        })
+    }
+}
+
 impl<const N: usize> Default for Subscriptions<N> {
     fn default() -> Self {
         Self::new()
